@@ -14,8 +14,7 @@ abbrev Buf := List Num
 def zero : Num := ⟨0, 0⟩
 def one : Num := ⟨1, 0⟩
 def _root_.CvxVerif.Dense.Num.abs1 (a : Num) : Rat := (if a.re < 0 then -a.re else a.re) + (if a.im < 0 then -a.im else a.im)
-def _root_.CvxVerif.Dense.Num.inv (a : Num) : Num := let d := a.re * a.re + a.im * a.im; ⟨a.re / d, -a.im / d⟩
-def _root_.CvxVerif.Dense.Num.div (a b : Num) : Num := a.mul b.inv
+-- `Num.inv` / `Num.div` (reciprocal and quotient of Gaussian rationals) are defined in `Model/Dense.lean`
 
 /-- position of element `k` of the strided vector `(off, n, inc)` -/
 def vpos (off : Int) (n : Nat) (inc : Int) (k : Nat) : Nat :=
@@ -157,5 +156,115 @@ def trmm (alpha : Num) (A B : Buf) (side uplo transA diag : Int) (m n : Nat) (oA
     let v := if side = 76 then sum ((List.range m).map fun l => (opTri g transA i l).mul (mget B oB ldB l j))
              else sum ((List.range n).map fun l => (mget B oB ldB i l).mul (opTri g transA l j))
     mset B' oB ldB i j (alpha.mul v)) B') B
+
+/-! remaining level 2 / level 3 routines -/
+
+/-- general band matrix `m × n` with `kl` sub- and `ku` super-diagonals stored in a `(kl+ku+1) × n` block: entry `(i, j)` sits in
+row `ku + i - j` of column `j` -/
+def gbGet (b : Buf) (off ld : Int) (kl ku : Nat) (i j : Nat) : Num :=
+  if i ≤ j + kl && j ≤ i + ku then mget b off ld (ku + i - j) j else zero
+
+/-- `y := alpha·op(A)·x + beta·y` for a general band matrix -/
+def gbmv (alpha beta : Num) (A x y : Buf) (trans : Int) (m n kl ku : Nat) (oA ldA ox ix oy iy : Int) : Buf :=
+  let (ly, lx) := if trans = 78 then (m, n) else (n, m)
+  let xs := vread x ox lx ix
+  let ys := vread y oy ly iy
+  let g := fun (i j : Nat) => if trans = 78 then gbGet A oA ldA kl ku i j else if trans = 84 then gbGet A oA ldA kl ku j i
+                              else (gbGet A oA ldA kl ku j i).conj
+  vwrite y oy ly iy ((List.range ly).map fun i =>
+    (alpha.mul (sum ((List.range lx).map fun j => (g i j).mul (xs.getD j zero)))).add (beta.mul (ys.getD i zero)))
+
+/-- symmetric / Hermitian band matrix with `k` off-diagonals in a `(k+1) × n` block ('L': entry `(i, j)`, `i ≥ j`, in row `i - j` of
+column `j`; 'U': entry `(i, j)`, `i ≤ j`, in row `k + i - j` of column `j`) -/
+def sbGet (b : Buf) (off ld : Int) (uplo : Int) (herm : Bool) (k : Nat) (i j : Nat) : Num :=
+  let lo := if i ≤ j then i else j
+  let hi := if i ≤ j then j else i
+  if hi > lo + k then zero else
+  -- the stored representative of the pair {lo, hi}
+  let st := if uplo = 76 then mget b off ld (hi - lo) lo else mget b off ld (k + lo - hi) hi
+  if i == j then (if herm then ⟨st.re, 0⟩ else st)
+  else
+    -- 'L' stores A[hi, lo], 'U' stores A[lo, hi]
+    let storedIsIJ := if uplo = 76 then decide (j < i) else decide (i < j)
+    if storedIsIJ || !herm then st else st.conj
+
+def sbmv (herm : Bool) (alpha beta : Num) (A x y : Buf) (uplo : Int) (n k : Nat) (oA ldA ox ix oy iy : Int) : Buf :=
+  let xs := vread x ox n ix
+  let ys := vread y oy n iy
+  vwrite y oy n iy ((List.range n).map fun i =>
+    (alpha.mul (sum ((List.range n).map fun j => (sbGet A oA ldA uplo herm k i j).mul (xs.getD j zero)))).add (beta.mul (ys.getD i zero)))
+
+/-- `A := alpha·x·yᵀ + alpha·y·xᵀ + A` on the `uplo` triangle (`herm`: `alpha·x·yᴴ + conj(alpha)·y·xᴴ + A`) -/
+def syr2 (herm : Bool) (alpha : Num) (x y A : Buf) (uplo : Int) (n : Nat) (ox ix oy iy oA ldA : Int) : Buf :=
+  if alpha == zero then A else
+  let xs := vread x ox n ix
+  let ys := vread y oy n iy
+  (List.range n).foldl (fun A j => (List.range n).foldl (fun A i =>
+    if (uplo = 76 && j ≤ i) || (uplo ≠ 76 && i ≤ j) then
+      let xi := xs.getD i zero; let xj := xs.getD j zero; let yi := ys.getD i zero; let yj := ys.getD j zero
+      let v := if herm then ((mget A oA ldA i j).add ((alpha.mul xi).mul yj.conj)).add ((alpha.conj.mul yi).mul xj.conj)
+               else ((mget A oA ldA i j).add ((alpha.mul xi).mul yj)).add ((alpha.mul yi).mul xj)
+      mset A oA ldA i j (if herm && i == j then ⟨v.re, 0⟩ else v)
+    else A) A) A
+
+/-- `C := alpha·A·B + beta·C` (`side = 'L'`, `A` symmetric / Hermitian of order `m`) or `C := alpha·B·A + beta·C` (`'R'`, order `n`) -/
+def symm (herm : Bool) (alpha beta : Num) (A B C : Buf) (side uplo : Int) (m n : Nat) (oA ldA oB ldB oC ldC : Int) : Buf :=
+  (List.range n).foldl (fun C' j => (List.range m).foldl (fun C' i =>
+    let v := if side = 76 then sum ((List.range m).map fun l => (symGet A oA ldA uplo herm i l).mul (mget B oB ldB l j))
+             else sum ((List.range n).map fun l => (mget B oB ldB i l).mul (symGet A oA ldA uplo herm l j))
+    mset C' oC ldC i j ((alpha.mul v).add (beta.mul (mget C oC ldC i j)))) C') C
+
+/-- `C := alpha·op(A)·op(A)ᴴ + beta·C` on the `uplo` triangle with real `alpha`, `beta`; `trans = 'N'`: `A` is `n × k`.  The
+imaginary parts of the diagonal of `C` are set to zero -/
+def herk (alpha beta : Num) (A C : Buf) (uplo trans : Int) (n k : Nat) (oA ldA oC ldC : Int) : Buf :=
+  if (alpha == zero || k == 0) && beta == one then C else      -- quick return of the reference routine: nothing is touched
+  (List.range n).foldl (fun C' j => (List.range n).foldl (fun C' i =>
+    if (uplo = 76 && j ≤ i) || (uplo ≠ 76 && i ≤ j) then
+      let a := fun (r l : Nat) => if trans = 78 then mget A oA ldA r l else (mget A oA ldA l r).conj
+      let c0 := mget C oC ldC i j
+      let v := (alpha.mul (sum ((List.range k).map fun l => (a i l).mul (a j l).conj))).add (beta.mul (if i == j then ⟨c0.re, 0⟩ else c0))
+      mset C' oC ldC i j (if i == j then ⟨v.re, 0⟩ else v)
+    else C') C') C
+
+/-- `C := alpha·op(A)·op(B)ᵀ + alpha·op(B)·op(A)ᵀ + beta·C` on the `uplo` triangle (`herm`: `alpha·op(A)·op(B)ᴴ + conj(alpha)·op(B)·op(A)ᴴ
++ beta·C` with real `beta`, diagonal made real); `trans = 'N'`: `A`, `B` are `n × k` -/
+def syr2k (herm : Bool) (alpha beta : Num) (A B C : Buf) (uplo trans : Int) (n k : Nat) (oA ldA oB ldB oC ldC : Int) : Buf :=
+  if (alpha == zero || k == 0) && beta == one then C else      -- quick return of the reference routine: nothing is touched
+  (List.range n).foldl (fun C' j => (List.range n).foldl (fun C' i =>
+    if (uplo = 76 && j ≤ i) || (uplo ≠ 76 && i ≤ j) then
+      let get := fun (M : Buf) (o l_ : Int) (r l : Nat) =>
+        if trans = 78 then mget M o l_ r l else (if herm then (mget M o l_ l r).conj else mget M o l_ l r)
+      let a := get A oA ldA; let b := get B oB ldB
+      let c0 := mget C oC ldC i j
+      let v := if herm then
+          ((alpha.mul (sum ((List.range k).map fun l => (a i l).mul (b j l).conj))).add
+           (alpha.conj.mul (sum ((List.range k).map fun l => (b i l).mul (a j l).conj)))).add (beta.mul (if i == j then ⟨c0.re, 0⟩ else c0))
+        else
+          ((alpha.mul (sum ((List.range k).map fun l => (a i l).mul (b j l)))).add
+           (alpha.mul (sum ((List.range k).map fun l => (b i l).mul (a j l))))).add (beta.mul c0)
+      mset C' oC ldC i j (if herm && i == j then ⟨v.re, 0⟩ else v)
+    else C') C') C
+
+/-- solve `M·x = b` by substitution for a triangular accessor `M` of order `n` (`upper`: back substitution) -/
+def substSolve (M : Nat → Nat → Num) (upper : Bool) (n : Nat) (bs : List Num) : List Num :=
+  let order := if upper then (List.range n).reverse else List.range n
+  order.foldl (fun (s : List Num) i =>
+    let acc := (List.range n).foldl (fun a j => if j == i then a else a.add ((M i j).mul (s.getD j zero))) zero
+    s.set i (((bs.getD i zero).sub acc).div (M i i))) (List.replicate n zero)
+
+/-- `B := alpha·op(T)⁻¹·B` (`side = 'L'`) or `B := alpha·B·op(T)⁻¹` (`'R'`), `B` is `m × n`, `T` triangular and nonsingular -/
+def trsm (alpha : Num) (A B : Buf) (side uplo transA diag : Int) (m n : Nat) (oA ldA oB ldB : Int) : Buf :=
+  let g := triGet A oA ldA uplo diag
+  let M := fun (i j : Nat) => opTri g transA i j
+  let upperM := (uplo ≠ 76) == (transA = 78)
+  if side = 76 then
+    (List.range n).foldl (fun B' j =>
+      let sol := substSolve M upperM m ((List.range m).map fun i => alpha.mul (mget B oB ldB i j))
+      (List.range m).foldl (fun B' i => mset B' oB ldB i j (sol.getD i zero)) B') B
+  else
+    -- X·M = alpha·B  ⇔  Mᵀ·Xᵀ = alpha·Bᵀ : row by row
+    (List.range m).foldl (fun B' i =>
+      let sol := substSolve (fun r c => M c r) (!upperM) n ((List.range n).map fun j => alpha.mul (mget B oB ldB i j))
+      (List.range n).foldl (fun B' j => mset B' oB ldB i j (sol.getD j zero)) B') B
 
 end CvxVerif.BlasSpec
